@@ -194,6 +194,8 @@ def gen(seed, tier):
         cases.append(G.eviction_case(r))
     for _ in range(100 * mul):
         cases.append(G.more_senders_than_slots(r))
+    for _ in range(12 * mul):
+        cases.append(G.late_sizing_case(r))
     for _ in range(60 * mul):
         cases.append(G.bam_occupancy_case(r))
     for _ in range(30 * mul):
